@@ -323,9 +323,12 @@ class POP3CommandHandler:
         """
         if pop3_num not in self.msg_sizes:
             assert self.mbox is not None
-            msg_key = self.snapshot_msg_keys[pop3_num - 1]
+            # NOTE: By UID, not by the MH message key the message had when the
+            #       session started: a folder pack renumbers the files and a
+            #       freed number is given to the next delivery.
+            #
             try:
-                msg = self.mbox.get_msg(msg_key)
+                msg = self.mbox.get_msg_by_uid(self.snapshot_uids[pop3_num - 1])
                 self.msg_sizes[pop3_num] = get_msg_size(msg)
             except (KeyError, FileNotFoundError):
                 # Message disappeared (concurrent modification).
@@ -415,9 +418,8 @@ class POP3CommandHandler:
             return True
 
         assert self.mbox is not None
-        msg_key = self.snapshot_msg_keys[n - 1]
         try:
-            msg = self.mbox.get_msg(msg_key)
+            msg = self.mbox.get_msg_by_uid(self.snapshot_uids[n - 1])
         except (KeyError, FileNotFoundError):
             await self.client.push("-ERR message not available\r\n")
             return True
@@ -529,9 +531,8 @@ class POP3CommandHandler:
             return True
 
         assert self.mbox is not None
-        msg_key = self.snapshot_msg_keys[n - 1]
         try:
-            msg = self.mbox.get_msg(msg_key)
+            msg = self.mbox.get_msg_by_uid(self.snapshot_uids[n - 1])
         except (KeyError, FileNotFoundError):
             await self.client.push("-ERR message not available\r\n")
             return True
